@@ -54,6 +54,34 @@ func (a *Activation) memcpyField(st *State, f flatField, dst, doff, src, soff, n
 	g.recordCopy(hn, h, dstN, f.id)
 }
 
+// havocElems makes the elements [0,len) of slice sl arbitrary, leaving the rest of the heap.
+func (a *Activation) havocElems(st *State, elemT types.Type, sl Term) {
+	g := a.g
+	fields := flatFields(g, elemT)
+	if fields == nil {
+		g.note("havoc of nested-struct elements: element heaps havocked entirely")
+		g.havocHeapSortsOf(st, elemT)
+		return
+	}
+	arrN, loN, nN := g.define("hea", sArr(sl)), g.define("hel", sOff(sl)), g.define("hen", sLen(sl))
+	for _, f := range fields {
+		h := g.heap(st, f.sort)
+		hold := g.fresh("He0", h.Sort)
+		g.assertLine(eq(hold, h), hold)
+		hn := g.fresh("He", h.Sort)
+		g.quantified = true
+		var inRange string
+		if f.id < 0 {
+			inRange = fmt.Sprintf("(and (= (kind l) 2) (= (elem_arr l) %s) (bvule %s (elem_idx l)) (bvult (bvsub (elem_idx l) %s) %s))", arrN.S, loN.S, loN.S, nN.S)
+		} else {
+			inRange = fmt.Sprintf("(and (= (kind l) 1) (= (fld_id l) %d) (= (kind (fld_obj l)) 2) (= (elem_arr (fld_obj l)) %s) (bvule %s (elem_idx (fld_obj l))) (bvult (bvsub (elem_idx (fld_obj l)) %s) %s))", f.id, arrN.S, loN.S, loN.S, nN.S)
+		}
+		g.assertLine(T(SBool, fmt.Sprintf("(forall ((l Loc)) (! (=> (not %s) (= (select %s l) (select %s l))) :pattern ((select %s l))))", inRange, hn.S, hold.S, hn.S)), hn)
+		st.heaps[f.sort] = hn
+		g.recordCopy(hn, h, arrN, f.id)
+	}
+}
+
 // appendStructs models append for slices whose elements are flat structs.
 func (a *Activation) appendStructs(st *State, s, more Term, elemT types.Type, fields []flatField, pos token.Pos) Term {
 	g := a.g
